@@ -1047,6 +1047,182 @@ class NinjaTestRule(TestRule):
         return self.compare(a, goals)
 
 
+# ---- alias, all, clean ------------------------------------------------------------------------------------------------
+#
+# alias(name, deps): a goal that is never a file, depending on exactly the given things.  `all`: depends on the
+# default set = the explicit defaults if there are any, otherwise the implicit ones (DefaultOutputs.outputs, inlined
+# from its real source); under Ninja `all` is also the declared default.  `clean` (Make) removes the path of every
+# target of the build.
+
+import bfg9000.builtins.alias as AL
+import bfg9000.builtins.default as DF
+import bfg9000.builtins.clean as CL
+
+
+class AliasEmitter(StepEmitter):
+    properties = ('C03', 'C06')
+
+    def cases(self):
+        return ['%d' % n for n in (0, 1, 2)]
+
+    def params(self, cx, case):
+        deps = [thing('dep%d' % i) for i in range(int(case))]
+        cx.ghost('deps', list(deps))
+        rule = Obj(AL.Alias, {'output': thing('alias_outputs'), 'extra_deps': PList(deps)})
+        return {'rule': rule, 'build_inputs': Obj(object, {}), 'buildfile': self.buildfile(), 'env': Obj(object, {})}
+
+    def compare(self, a, out_, deps, phony):
+        return {'goal_is_the_alias': z3.BoolVal(isinstance(out_, Sym) and z3.eq(out_.e, thing('alias_outputs').e)),
+                'depends_on_exactly_the_given_things': z3.BoolVal(self.same_items(deps, a.deps)),
+                'never_a_file': z3.BoolVal(phony is True)}
+
+
+class MakeAlias(AliasEmitter):
+    target = 'bfg9000/builtins/alias.py::make_alias'
+
+    def buildfile(self):
+        return Obj(msyn.Makefile, {})
+
+    def opaque_calls(self):
+        return {msyn.Makefile.__dict__['rule']: self.rec('rule')}
+
+    def ensures(self, a, r):
+        rules = [e for e in a.events if e[0] == 'rule']
+        out = {'exactly_one_rule': z3.BoolVal(len(rules) == 1)}
+        if len(rules) == 1:
+            kw = rules[0][2]
+            out.update(self.compare(a, kw.get('target'), kw.get('deps'), kw.get('phony')))
+            out['no_recipe'] = z3.BoolVal(kw.get('recipe') is None and set(kw) <= {'target', 'deps', 'phony', 'recipe'})
+        return out
+
+
+class NinjaAlias(AliasEmitter):
+    target = 'bfg9000/builtins/alias.py::ninja_alias'
+
+    def buildfile(self):
+        return Obj(nsyn.NinjaFile, {})
+
+    def opaque_calls(self):
+        return {nsyn.NinjaFile.__dict__['build']: self.rec('build')}
+
+    def ensures(self, a, r):
+        builds = [e for e in a.events if e[0] == 'build']
+        out = {'exactly_one_build_statement': z3.BoolVal(len(builds) == 1)}
+        if len(builds) == 1:
+            kw = builds[0][2]
+            out.update(self.compare(a, kw.get('output'), kw.get('inputs'), kw.get('rule') == 'phony'))
+            out['no_other_dependencies'] = z3.BoolVal(set(kw) <= {'output', 'rule', 'inputs'})
+        return out
+
+
+class AllGoal(StepEmitter):
+    properties = ('C03', 'C06')
+
+    def cases(self):
+        return ['%d/%d' % (e, f) for e in (0, 1, 2) for f in (0, 1, 2)]
+
+    def params(self, cx, case):
+        e, f = [int(x) for x in case.split('/')]
+        explicit = [thing('explicit%d' % i) for i in range(e)]
+        fallback = [thing('implicit%d' % i) for i in range(f)]
+        cx.ghost('want', list(explicit) if explicit else list(fallback))
+        d = Obj(DF.DefaultOutputs, {'default_outputs': PList(explicit), 'fallback_defaults': PList(fallback)})
+        return {'build_inputs': PDict({'defaults': d}), 'buildfile': self.buildfile(), 'env': Obj(object, {})}
+
+
+class MakeAllGoal(AllGoal):
+    target = 'bfg9000/builtins/default.py::make_all_rule'
+
+    def buildfile(self):
+        return Obj(msyn.Makefile, {})
+
+    def opaque_calls(self):
+        return {msyn.Makefile.__dict__['rule']: self.rec('rule')}
+
+    def ensures(self, a, r):
+        rules = [e for e in a.events if e[0] == 'rule']
+        out = {'exactly_one_rule': z3.BoolVal(len(rules) == 1)}
+        if len(rules) == 1:
+            kw = rules[0][2]
+            out['goal_all_depends_on_the_default_set'] = z3.BoolVal(kw.get('target') == 'all' and self.same_items(kw.get('deps'), a.want))
+            out['never_a_file_and_no_recipe'] = z3.BoolVal(kw.get('phony') is True and kw.get('recipe') is None)
+        return out
+
+
+class NinjaAllGoal(AllGoal):
+    target = 'bfg9000/builtins/default.py::ninja_all_rule'
+
+    def buildfile(self):
+        return Obj(nsyn.NinjaFile, {})
+
+    def opaque_calls(self):
+        return {nsyn.NinjaFile.__dict__['build']: self.rec('build'), nsyn.NinjaFile.__dict__['default']: self.rec('default')}
+
+    def ensures(self, a, r):
+        builds = [e for e in a.events if e[0] == 'build']
+        defaults = [e for e in a.events if e[0] == 'default']
+        out = {'exactly_one_build_statement': z3.BoolVal(len(builds) == 1)}
+        if len(builds) == 1:
+            kw = builds[0][2]
+            out['goal_all_depends_on_the_default_set'] = z3.BoolVal(kw.get('output') == 'all' and kw.get('rule') == 'phony' and
+                                                                  self.same_items(kw.get('inputs'), a.want) and
+                                                                  set(kw) <= {'output', 'rule', 'inputs'})
+        d = defaults[0][1][1] if len(defaults) == 1 and len(defaults[0][1]) == 2 else None
+        out['all_is_the_declared_default'] = z3.BoolVal(isinstance(d, PList) and d.concrete and list(d.items) == ['all'])
+        return out
+
+
+class MakeCleanGoal(StepEmitter):
+    """`clean` removes the path of every target of the build (0..2 targets), then cleans the packages; always out of
+    date."""
+    target = 'bfg9000/builtins/clean.py::make_clean_rule'
+    properties = ('C04', 'C07')
+
+    def cases(self):
+        return ['%d/%s' % (n, m) for n in (0, 1, 2) for m in ('packages', 'no-packages')]
+
+    def params(self, cx, case):
+        n, m = case.split('/')
+        cx.ghost('n', int(n))
+        cx.ghost('packages', m == 'packages')
+        targets = [Obj(object, {'path': Obj(object, {'path_of_target': i})}) for i in range(int(n))]
+
+        def tool(I, a, k, node=None):
+            name = a[0]
+
+            def run(I, a2, k2, node=None):
+                args = [list(x.items) if isinstance(x, PList) and x.concrete else x for x in a2]
+                I.events.append(('tool_call', [name] + args, dict(k2)))
+                return Obj(object, {'command_of': name})
+            return Obj(object, {'__call__': OpaqueFn(name, run)})
+        env = Obj(object, {'tool': OpaqueFn('tool', tool), 'mopack': PList([thing('a_package_file')] if m == 'packages' else [])})
+        bi = Obj(object, {'targets': OpaqueFn('targets', lambda I, a, k: PList(list(targets)))})
+        return {'build_inputs': bi, 'buildfile': Obj(msyn.Makefile, {}), 'env': env}
+
+    def opaque_calls(self):
+        return {msyn.Makefile.__dict__['rule']: self.rec('rule'), CL.Path: lambda I, a, k, node=None: Obj(object, {'the_build_directory': True})}
+
+    def ensures(self, a, r):
+        rules = [e for e in a.events if e[0] == 'rule']
+        out = {'exactly_one_rule': z3.BoolVal(len(rules) == 1)}
+        if len(rules) != 1:
+            return out
+        kw = rules[0][2]
+        out['goal_clean_always_out_of_date'] = z3.BoolVal(kw.get('target') == 'clean' and kw.get('phony') is True and kw.get('deps') is None)
+        rec_ = kw.get('recipe')
+        cmds = list(rec_.items) if isinstance(rec_, PList) and rec_.concrete else None
+        want = ['rm'] + (['mopack'] if a.packages else [])
+        out['removal_then_package_cleaning'] = z3.BoolVal(cmds is not None and [c.attrs.get('command_of') if isinstance(c, Obj) else None for c in cmds] == want)
+        rms = [e for e in a.events if e[0] == 'tool_call' and e[1][0] == 'rm']
+        ok = len(rms) == 1 and len(rms[0][1]) == 2
+        if ok:
+            ops = rms[0][1][1]
+            ok = len(ops) == a.n and all(isinstance(x, Obj) and x.attrs.get('path_of_target') == i for i, x in enumerate(ops))
+        out['removes_the_path_of_every_target'] = z3.BoolVal(bool(ok))
+        return out
+
+
 def registry():
     return [MakeCommand(), NinjaCommand(), MakeCopyFile(), NinjaCopyFile(), CompdbCopyFile(), MakeCompile(), NinjaCompile(),
-            MakeLink(), NinjaLink(), CompileGetFlags(), LinkGetFlags(), MakeInstallRule(), NinjaInstallRule(), MakeTestRule(), NinjaTestRule()]
+            MakeLink(), NinjaLink(), CompileGetFlags(), LinkGetFlags(), MakeInstallRule(), NinjaInstallRule(), MakeTestRule(), NinjaTestRule(),
+            MakeAlias(), NinjaAlias(), MakeAllGoal(), NinjaAllGoal(), MakeCleanGoal()]
